@@ -6,6 +6,7 @@
 import PygModel.Ops
 import PygProofs.Lemmas.OpsLemmas
 import PygProofs.Lemmas.OpsFLemmas
+import PygProofs.Lemmas.OpsXLemmas
 
 namespace Pyg.Props.C08
 open Pyg Pyg.Align Pyg.Ops
@@ -580,6 +581,161 @@ theorem aggF_no_data (vs : List (Option Rat)) (h : ∀ v ∈ vs, v = Option.none
     intro v hv; rw [h v hv]; rfl
   refine ⟨by rw [sum_skipna, if_pos h0], by rw [mean_spec, if_pos h0], by rw [count_spec, h0]; rfl⟩
 
+/-! ## the other operators the statement names, on Series and scalars (`PygModel/OpsX.lean`)
+`binopG f` is the presync kernel with an arbitrary pointwise function `f`; `min_ / max_` use `MM.appO`, `pow_` uses `powO`. -/
+
+/-- the arithmetic operators are instances of the generic kernel -/
+theorem binop_eq_binopG (op : Op) (how : How) (m : Option Dir) (a b : Operand) : binop op how m a b = binopG op.appO how m a b := by
+  simp only [binop, binopG, kernel_eq_kernelG]
+  rfl
+
+/-- two Series, no fill method: the result lives on the joint index and `result[t] = f a[t] b[t]` -/
+theorem binopG_value (f : Option Rat → Option Rat → Option Rat) (how : How) (a b : RSeries) :
+    ∃ ix, joinIndex how [a.idx, b.idx] = some ix ∧
+      binopG f how Option.none (.ts a) (.ts b) = .ts { idx := ix, vals := ix.map fun t => f (valueAtR a t) (valueAtR b t) } := by
+  cases how <;> exact ⟨_, rfl, by simp [binopG, alignAll, indexesOf, joinIndex, kernelG, reindexR, List.zip_map', List.map_map, Function.comp_def]⟩
+
+theorem binopG_scalar_right (f : Option Rat → Option Rat → Option Rat) (how : How) (a : RSeries) (q : Option Rat) :
+    binopG f how Option.none (.ts a) (.num q) = .ts { idx := a.idx, vals := a.idx.map fun t => f (valueAtR a t) q } := by
+  cases how <;> simp [binopG, alignAll, indexesOf, joinIndex, kernelG, reindexR, List.map_map, Function.comp_def]
+
+theorem binopG_scalar_left (f : Option Rat → Option Rat → Option Rat) (how : How) (b : RSeries) (q : Option Rat) :
+    binopG f how Option.none (.num q) (.ts b) = .ts { idx := b.idx, vals := b.idx.map fun t => f q (valueAtR b t) } := by
+  cases how <;> simp [binopG, alignAll, indexesOf, joinIndex, kernelG, reindexR, List.map_map, Function.comp_def]
+
+theorem binopG_scalar_scalar (f : Option Rat → Option Rat → Option Rat) (how : How) (m : Option Dir) (p q : Option Rat) :
+    binopG f how m (.num p) (.num q) = .num (f p q) := by
+  cases how <;> simp [binopG, alignAll, indexesOf, joinIndex, kernelG]
+
+/-- a commutative pointwise function gives a commutative operator (sorted indices, inner / outer) -/
+theorem binopG_comm (f : Option Rat → Option Rat → Option Rat) (hf : ∀ x y, f x y = f y x) (how : How)
+    (hh : how = .inner ∨ how = .outer) (m : Option Dir) (a b : RSeries) (ha : SortedL a.idx) (hb : SortedL b.idx) :
+    binopG f how m (.ts a) (.ts b) = binopG f how m (.ts b) (.ts a) := by
+  obtain ⟨ix, h1, h2⟩ := binopG_index f how m a b
+  obtain ⟨ix', h1', h2'⟩ := binopG_index f how m b a
+  have hj : joinIndex how [a.idx, b.idx] = joinIndex how [b.idx, a.idx] := by
+    rcases hh with rfl | rfl
+    · exact joinIndex_comm_inner _ _ ha hb
+    · exact joinIndex_comm_outer _ _ ha hb
+  rw [hj, h1'] at h1
+  cases h1
+  rw [h2, h2']
+  congr 2
+  apply List.ext_getElem
+  · simp [Nat.min_comm]
+  · intro i h3 h4; simp; exact hf _ _
+
+/-! ### `min_ / max_` -/
+
+/-- the pointwise minimum / maximum is one of its arguments and bounds both -/
+theorem min_spec (x y : Rat) : (MM.app .min x y = x ∨ MM.app .min x y = y) ∧ MM.app .min x y ≤ x ∧ MM.app .min x y ≤ y := by
+  simp only [MM.app]
+  split
+  · rename_i h; exact ⟨.inl rfl, Rat.le_refl, h⟩
+  · rename_i h
+    have : y ≤ x := by rcases @Rat.le_total x y with h' | h'; exact absurd h' h; exact h'
+    exact ⟨.inr rfl, this, Rat.le_refl⟩
+
+theorem max_spec (x y : Rat) : (MM.app .max x y = x ∨ MM.app .max x y = y) ∧ x ≤ MM.app .max x y ∧ y ≤ MM.app .max x y := by
+  simp only [MM.app]
+  split
+  · rename_i h; exact ⟨.inr rfl, h, Rat.le_refl⟩
+  · rename_i h
+    have : y ≤ x := by rcases @Rat.le_total x y with h' | h'; exact absurd h' h; exact h'
+    exact ⟨.inl rfl, Rat.le_refl, this⟩
+
+/-- NaN on either side gives NaN (`np.minimum / np.maximum` propagate NaN) -/
+theorem mm_nan (k : MM) (x : Option Rat) : k.appO Option.none x = Option.none ∧ k.appO x Option.none = Option.none := by
+  cases x <;> simp [MM.appO]
+
+/-- `min_(a, b)` / `max_(a, b)` of two Series: pointwise on the joint index -/
+theorem mm_value (k : MM) (how : How) (a b : RSeries) :
+    ∃ ix, joinIndex how [a.idx, b.idx] = some ix ∧
+      mmList k how Option.none [.ts a] [.ts b] =
+        some (.ts { idx := ix, vals := ix.map fun t => k.appO (valueAtR a t) (valueAtR b t) }) := by
+  cases how <;> exact ⟨_, rfl, by simp [mmList, reducer, alignAll, indexesOf, joinIndex, kernelG, reindexR, List.zip_map', List.map_map, Function.comp_def]⟩
+
+/-- all operands are synchronised at once, then reduced from the left; no operand gives `None` -/
+theorem mm_reduce (k : MM) (how : How) (m : Option Dir) (as bs : List Operand) :
+    mmList k how m as bs = reducer (kernelG k.appO) (alignAll how m (as ++ bs)) ∧ mmList k how m [] [] = Option.none := by
+  refine ⟨rfl, ?_⟩
+  cases how <;> rfl
+
+theorem mm_comm (k : MM) (how : How) (hh : how = .inner ∨ how = .outer) (m : Option Dir) (a b : RSeries)
+    (ha : SortedL a.idx) (hb : SortedL b.idx) :
+    binopG k.appO how m (.ts a) (.ts b) = binopG k.appO how m (.ts b) (.ts a) :=
+  binopG_comm k.appO (mm_appO_comm k) how hh m a b ha hb
+
+/-! ### `pow_` for exponents that are NaN or non-negative integers -/
+
+theorem pow_nat (x : Rat) (n : Nat) : powO (some x) (some (n : Rat)) = some (x ^ n) := by
+  simp only [powO, natExp_natCast, Option.map_some]
+  split
+  · rename_i h
+    have : n = 0 := by exact_mod_cast h
+    subst this; simp [Rat.pow_zero]
+  · split
+    · rename_i h; subst h; rw [rat_one_pow]
+    · rfl
+
+/-- `x ** 0 = 1` and `1 ** y = 1` even when the other side is NaN; otherwise NaN propagates -/
+theorem pow_zero_exp (x : Option Rat) : powO x (some 0) = some 1 := by
+  cases x <;> simp [powO]
+
+theorem pow_one_base (y : Option Rat) : powO (some 1) y = some 1 := by
+  cases y <;> simp [powO]
+
+theorem pow_nan_exp (x : Rat) (h : x ≠ 1) : powO (some x) Option.none = Option.none := by simp [powO, h]
+
+theorem pow_nan_base (y : Option Rat) (h : y ≠ some 0) : powO Option.none y = Option.none := by
+  cases y with
+  | none => rfl
+  | some y => have : y ≠ 0 := fun e => h (by rw [e]); simp [powO, this]
+
+/-- `pow_(a, b)` of two Series: `result[t] = a[t] ** b[t]` on the joint index -/
+theorem pow_value (how : How) (a b : RSeries) :
+    ∃ ix, joinIndex how [a.idx, b.idx] = some ix ∧
+      powop how Option.none (.ts a) (.ts b) = .ts { idx := ix, vals := ix.map fun t => powO (valueAtR a t) (valueAtR b t) } :=
+  binopG_value powO how a b
+
+/-! ### comparisons -/
+
+/-- a comparison with NaN on either side is False -/
+theorem cmp_nan_false (c : Cmp) (x : Option Rat) : c.appO Option.none x = false ∧ c.appO x Option.none = false := by
+  cases x <;> simp [Cmp.appO]
+
+/-- two Series, no fill method: a bool Series on the joint index with `result[t] = (a[t] cmp b[t])` -/
+theorem cmp_value (c : Cmp) (how : How) (a b : RSeries) :
+    ∃ ix, joinIndex how [a.idx, b.idx] = some ix ∧
+      cmpop c how Option.none (.ts a) (.ts b) = .ts ix (ix.map fun t => c.appO (valueAtR a t) (valueAtR b t)) := by
+  cases how <;> exact ⟨_, rfl, by simp [cmpop, alignAll, indexesOf, joinIndex, cmpKernel, reindexR, List.zip_map', List.map_map, Function.comp_def]⟩
+
+theorem cmp_scalar_right (c : Cmp) (how : How) (a : RSeries) (q : Option Rat) :
+    cmpop c how Option.none (.ts a) (.num q) = .ts a.idx (a.idx.map fun t => c.appO (valueAtR a t) q) := by
+  cases how <;> simp [cmpop, alignAll, indexesOf, joinIndex, cmpKernel, reindexR, List.map_map, Function.comp_def]
+
+theorem cmp_scalar_left (c : Cmp) (how : How) (b : RSeries) (q : Option Rat) :
+    cmpop c how Option.none (.num q) (.ts b) = .ts b.idx (b.idx.map fun t => c.appO q (valueAtR b t)) := by
+  cases how <;> simp [cmpop, alignAll, indexesOf, joinIndex, cmpKernel, reindexR, List.map_map, Function.comp_def]
+
+theorem cmp_scalar_scalar (c : Cmp) (how : How) (m : Option Dir) (p q : Option Rat) :
+    cmpop c how m (.num p) (.num q) = .flag (c.appO p q) := by
+  cases how <;> simp [cmpop, alignAll, indexesOf, joinIndex, cmpKernel]
+
+/-- `a > b` is `b < a`, `a >= b` is `b <= a`; on numbers `>` is the negation of `<=` and `>=` of `<` -/
+theorem cmp_swap (x y : Option Rat) : Cmp.appO .gt x y = Cmp.appO .lt y x ∧ Cmp.appO .ge x y = Cmp.appO .le y x := by
+  cases x <;> cases y <;> simp [Cmp.appO, Cmp.app]
+
+theorem gt_not_le (x y : Rat) : Cmp.app .gt x y = !Cmp.app .le x y := by
+  by_cases h : x ≤ y
+  · simp [Cmp.app, h, Rat.not_lt.mpr h]
+  · simp [Cmp.app, h, Rat.not_le.mp h]
+
+theorem ge_not_lt (x y : Rat) : Cmp.app .ge x y = !Cmp.app .lt x y := by
+  by_cases h : y ≤ x
+  · simp [Cmp.app, h, Rat.not_lt.mpr h]
+  · simp [Cmp.app, h, Rat.not_le.mp h]
+
 /-! ### non-vacuity and evaluation checks
 (`Rat` arithmetic does not reduce in the kernel, so concrete results are `#guard` evaluation tests, not theorems) -/
 
@@ -629,5 +785,15 @@ example : fa.cols.length > 1 ∧ fb.cols.length > 1 ∧ SortedL fa.idx ∧ Sorte
                                        ("c", [Option.none, some 5, some 5, some 5])] }
 #guard opListF .add .inner Option.none .oj [.df fa, .df fb, .df fba] [] ==
   some (.df { idx := [1, 2], cols := [("a", [some 7, some 8]), ("b", [Option.none, some 6]), ("c", [some 5, some 5])] })
+
+#guard mmList .max .outer Option.none [.ts { idx := [0, 1, 2, 3], vals := [some 1, Option.none, some 3, some 0] }]
+    [.ts { idx := [1, 2, 3, 5], vals := [some 1, some 2, Option.none, some (-1)] }] ==
+  some (.ts { idx := [0, 1, 2, 3, 5], vals := [Option.none, Option.none, some 3, Option.none, Option.none] })
+#guard powop .outer Option.none (.ts { idx := [0, 1, 2, 3], vals := [some 1, Option.none, some 3, some 0] })
+    (.ts { idx := [1, 2, 3, 5], vals := [some 1, some 2, Option.none, some (-1)] }) ==
+  .ts { idx := [0, 1, 2, 3, 5], vals := [some 1, Option.none, some 9, Option.none, Option.none] }
+#guard cmpop .ge .inner Option.none (.ts { idx := [0, 1, 2, 3], vals := [some 1, Option.none, some 3, some 0] }) (.num (some 1)) ==
+  .ts [0, 1, 2, 3] [true, false, true, false]
+#guard powDomain (.num (some (-1))) == false && powDomain (.num (some (1 / 2))) == false && powDomain (.num (some 3))
 
 end Pyg.Props.C08
